@@ -307,6 +307,21 @@ func applyGlobalTimeBounds(trpls map[string]*triple.Triple, ckr *checker) map[st
 	return selectedTrpls
 }
 
+// samePredicate reports whether a and b have the same identifier, the same kind
+// and, when temporal, the same instant. The text forms are not compared: the
+// same instant prints differently in different time zones.
+func samePredicate(a, b *predicate.Predicate) bool {
+	if a.ID() != b.ID() || a.Type() != b.Type() {
+		return false
+	}
+	if a.Type() == predicate.Immutable {
+		return true
+	}
+	ta, errA := a.TimeAnchor()
+	tb, errB := b.TimeAnchor()
+	return errA == nil && errB == nil && ta.Equal(*tb)
+}
+
 // isImmutableFilter executes the isImmutable filter operation over memoryTriples following filterOptions.
 func isImmutableFilter(memoryTriples map[string]*triple.Triple, pQuery *predicate.Predicate, filterOptions *filter.StorageOptions) (map[string]*triple.Triple, error) {
 	if filterOptions.Field != filter.PredicateField && filterOptions.Field != filter.ObjectField {
@@ -315,7 +330,7 @@ func isImmutableFilter(memoryTriples map[string]*triple.Triple, pQuery *predicat
 
 	trps := make(map[string]*triple.Triple)
 	for _, t := range memoryTriples {
-		if pQuery != nil && pQuery.String() != t.Predicate().String() {
+		if pQuery != nil && !samePredicate(pQuery, t.Predicate()) {
 			continue
 		}
 
@@ -346,7 +361,7 @@ func isTemporalFilter(memoryTriples map[string]*triple.Triple, pQuery *predicate
 
 	trps := make(map[string]*triple.Triple)
 	for _, t := range memoryTriples {
-		if pQuery != nil && pQuery.String() != t.Predicate().String() {
+		if pQuery != nil && !samePredicate(pQuery, t.Predicate()) {
 			continue
 		}
 
@@ -378,7 +393,7 @@ func latestFilter(memoryTriples map[string]*triple.Triple, pQuery *predicate.Pre
 	lastTA := make(map[string]*time.Time)
 	trps := make(map[string]map[string]*triple.Triple)
 	for _, t := range memoryTriples {
-		if pQuery != nil && pQuery.String() != t.Predicate().String() {
+		if pQuery != nil && !samePredicate(pQuery, t.Predicate()) {
 			continue
 		}
 
